@@ -394,6 +394,10 @@ func (tc *tableCollector) collectFromNode(node ast.Node) {
 		if n.TableName != "" {
 			tc.tables[n.TableName] = true
 		}
+	case *ast.ReplaceStatement:
+		if n.TableName != "" {
+			tc.tables[n.TableName] = true
+		}
 	case *ast.UpdateStatement:
 		if n.TableName != "" {
 			tc.tables[n.TableName] = true
@@ -459,6 +463,10 @@ func (qtc *qualifiedTableCollector) collectFromNode(node ast.Node) {
 			}
 		}
 	case *ast.InsertStatement:
+		if n.TableName != "" {
+			qtc.addTable(n.TableName)
+		}
+	case *ast.ReplaceStatement:
 		if n.TableName != "" {
 			qtc.addTable(n.TableName)
 		}
